@@ -156,16 +156,18 @@ theorem sim_addtagref (s : File) (slot t r : Nat) (hI : Inv s) (hG : GraphInv s.
   unfold SimGoal; simp only [step, gstep]
   apply sim_mut hI hG
   intro r0 g h1 h2 hg hn
-  by_cases hc : g.mem.nvelt = 65535
-  · have hf := vinsertpair_full hc (t % 65536) (r % 65536)
-    have hl := (full_iff hg).mpr hc
-    refine ⟨?_, Or.inl ?_⟩ <;> simp [VGroup.abs, hf, hl]
-  · obtain ⟨p, e, a, b, c⟩ := insert_facts hg hn hc (t % 65536) (r % 65536) (Nat.mod_lt _ (by omega)) (Nat.mod_lt _ (by omega))
-    have hl : ¬ g.mem.members.length = MAX_REF := fun x => hc ((full_iff hg).mp x)
-    refine ⟨?_, Or.inr ⟨?_, ?_⟩⟩
-    · simp [VGroup.abs, e, a, b, hl]
-    · simpa [e] using c
-    · simp [e]
+  by_cases hacc : g.access = accW
+  · by_cases hc : g.mem.nvelt = 65535
+    · have hf := vinsertpair_full hc (t % 65536) (r % 65536)
+      have hl := (full_iff hg).mpr hc
+      refine ⟨?_, Or.inl ?_⟩ <;> simp [VGroup.abs, hacc, hf, hl]
+    · obtain ⟨p, e, a, b, c⟩ := insert_facts hg hn hc (t % 65536) (r % 65536) (Nat.mod_lt _ (by omega)) (Nat.mod_lt _ (by omega))
+      have hl : ¬ g.mem.members.length = MAX_REF := fun x => hc ((full_iff hg).mp x)
+      refine ⟨?_, Or.inr ⟨?_, ?_⟩⟩
+      · simp [VGroup.abs, hacc, e, a, b, hl]
+      · simpa [hacc, e] using c
+      · simp [hacc, e]
+  · refine ⟨?_, Or.inl ?_⟩ <;> simp [VGroup.abs, hacc]
 
 theorem sim_insertvg (s : File) (slot slot2 : Nat) (hI : Inv s) (hG : GraphInv s.abs) : SimGoal s (.insertvg slot slot2) := by
   unfold SimGoal; simp only [step, gstep]
@@ -221,22 +223,24 @@ theorem sim_deltagref (s : File) (slot t r : Nat) (hI : Inv s) (hG : GraphInv s.
   unfold SimGoal; simp only [step, gstep]
   apply sim_mut hI hG
   intro r0 g _ _ hg hn
-  have hd := vdeletetagref_erase hg.1 (t % 65536) (r % 65536)
-  cases hv : vdeletetagref g.mem (t % 65536) (r % 65536) with
-  | none =>
-    rw [hv] at hd
-    refine ⟨?_, Or.inl ?_⟩ <;> simp [VGroup.abs, hd]
-  | some m =>
-    rw [hv] at hd
-    obtain ⟨d1, d2, d3⟩ := hd
-    refine ⟨?_, Or.inr ⟨?_, ?_⟩⟩
-    · simp [VGroup.abs, d1, d2]
-    · simp only
-      refine ginv_mem hg d3 ?_ hn
-      intro p hp
-      rw [d2] at hp
-      exact hg.2.1.2.1 p (List.mem_of_mem_erase hp)
-    · rfl
+  by_cases hacc : g.access = accW
+  · have hd := vdeletetagref_erase hg.1 (t % 65536) (r % 65536)
+    cases hv : vdeletetagref g.mem (t % 65536) (r % 65536) with
+    | none =>
+      rw [hv] at hd
+      refine ⟨?_, Or.inl ?_⟩ <;> simp [VGroup.abs, hacc, hd]
+    | some m =>
+      rw [hv] at hd
+      obtain ⟨d1, d2, d3⟩ := hd
+      refine ⟨?_, Or.inr ⟨?_, ?_⟩⟩
+      · simp [VGroup.abs, hacc, d1, d2]
+      · simp only [hacc, ne_eq, not_true_eq_false, if_false]
+        refine ginv_mem hg d3 ?_ hn
+        intro p hp
+        rw [d2] at hp
+        exact hg.2.1.2.1 p (List.mem_of_mem_erase hp)
+      · simp [hacc]
+  · refine ⟨?_, Or.inl ?_⟩ <;> simp [VGroup.abs, hacc]
 
 end H4.VGroup
 
